@@ -66,6 +66,9 @@ def body(chk):
     from harness import sessioncheck
 
     sessioncheck.standard(chk)
+    from harness import envrun
+
+    envrun.run(chk, {"root_attrs", "spurious_error"})
     chk.finish(rule="a case = one volume directory with every text field holding a token of a rotating class, 0..12 file pointers, "
                     "5 boundary timestamps; evaluations = attributes compared; distinct = (plan, pointer count)",
                exhaustive=False, extra={"leaves_compared": total})
